@@ -707,6 +707,95 @@ func (s SeqSpec) String() string {
 	return s.Lit
 }
 
+var tempDirFlip struct {
+	mu sync.Mutex
+	n  int
+}
+
+// AlternateTempDir runs f; on every second call of the process it does so with TMPDIR pointing at a fresh
+// directory on another file system than the harness's work directory (/dev/shm, when it is one), so that code
+// which goes through os.TempDir - a temporary file that is renamed into place, say - meets a target on a
+// different device. Where no second file system is found f simply runs (counted in the evidence notes).
+func AlternateTempDir(f func()) {
+	tempDirFlip.mu.Lock()
+	tempDirFlip.n++
+	other := tempDirFlip.n%2 == 0
+	tempDirFlip.mu.Unlock()
+	if !other {
+		f()
+		return
+	}
+	dir := otherFileSystemDir()
+	if dir == "" {
+		Count("file routes that could not be run with the temp directory on another file system (none found)", 1)
+		f()
+		return
+	}
+	old, had := os.LookupEnv("TMPDIR")
+	_ = os.Setenv("TMPDIR", dir)
+	defer func() {
+		if had {
+			_ = os.Setenv("TMPDIR", old)
+		} else {
+			_ = os.Unsetenv("TMPDIR")
+		}
+		_ = os.RemoveAll(dir)
+	}()
+	Count("file routes run with the temp directory on another file system", 1)
+	f()
+}
+
+func otherFileSystemDir() string {
+	var here, there syscall.Stat_t
+	if syscall.Stat(WorkDir(), &here) != nil || syscall.Stat("/dev/shm", &there) != nil || here.Dev == there.Dev {
+		return ""
+	}
+	dir, err := os.MkdirTemp("/dev/shm", "verif-tmp-")
+	if err != nil {
+		return ""
+	}
+	return dir
+}
+
+// Siblings returns up to three strings of the same length as s with the first, the middle or the last byte replaced
+// by another byte of s's own alphabet (or by 'A' / 'C' when s uses one letter only): the same suffix, the same ends, the
+// same prefix. Checks evaluate them before the judged input and discard the results - a result must depend on the
+// call's own arguments only, whatever related input was seen before.
+func Siblings(s string) []string {
+	if len(s) == 0 {
+		return nil
+	}
+	other := func(c byte) byte {
+		for i := 0; i < len(s); i++ {
+			if s[i] != c {
+				return s[i]
+			}
+		}
+		if c == 'A' {
+			return 'C'
+		}
+		return 'A'
+	}
+	var out []string
+	seen := map[int]bool{}
+	for _, p := range []int{0, len(s) / 2, len(s) - 1} {
+		if !seen[p] {
+			seen[p] = true
+			b := []byte(s)
+			b[p] = other(b[p])
+			out = append(out, string(b))
+		}
+	}
+	return out
+}
+
+// Scribble overwrites a buffer that was handed to the code under test: what that code returned must not change.
+func Scribble(b []byte) {
+	for i := range b {
+		b[i] = '#'
+	}
+}
+
 // StaleFile puts n bytes of old content at path, so that a writer under test has to replace an existing,
 // longer file rather than create a fresh one (overwriting is what a caller's second Write to a path does).
 func StaleFile(path string, n int) {
